@@ -56,6 +56,9 @@ def run(tier):
                         for b in ("numba", "numpy")] +
                        # the same with a Hann window and bins inside the main lobe of DC (short segments on a long record): whatever error the
                        # mean removal leaves, it must be the same error alone and in a pair
+                       # long record, short segments: bins with K far above the NumPy kernels' chunk sizes (8192 / 16384 / 32768)
+                       [dict(N=150000, fs=1.0, data="drift", sched="ltf", win="hann", order=o, backend="numpy", Jdes=12, Kdes=20, Lmin=1, psll=120)
+                        for o in ((2, 0) if tier == "quick" else (-1, 0, 1, 2))] +
                        [dict(N=131072, fs=1.0, data="hugeoffset", sched="vectorized_ltf", win="hann", order=0, backend="numba", Jdes=40, Kdes=50, Lmin=1, psll=120,
                              variants=[("alone",), ("swap",)])])       # (no gain variant: inside the main lobe the rounding of the removed mean is not small)
     items = [(k, o, b, s, f) for k in ("zero_y", "zero_x", "const", "identical", "negated", "both_zero") for o in (-1, 0, 1, 2)
